@@ -446,6 +446,9 @@ func (modComp) Gen(r *rand.Rand, tier string, n int) []*wire.Case {
 	mk("d-tick", cat2(one(add(1, 3, 1, 2, 0, "")), one(add(1, 10, 1, 2, 0, "")), turn(1), turn(2), turn(1), turn(1))...)
 	mk("d-tick-imm", cat2(one(tick(1, 0)), one(add(1, 3, 1, 1, 0, "").I("x", 0)), one(wire.R("addmod").I("t", 1).I("name", 3).I("src", 2).I("dur", 1).I("count", 0).I("max", 0).I("cadd", 0).B("imm", true).S("stats", "-")),
 		one(tick(1, 2)), one(wire.R("addmod").I("t", 1).I("name", 3).I("src", 3).I("dur", 1).I("count", 0).I("max", 0).I("cadd", 0).B("imm", true).S("stats", "-")), one(tick(1, 3)), turn(1))...)
+	mk("d-dispel-random", add(1, 0, 1, 0, 0, ""), add(1, 3, 1, 0, 0, ""), add(1, 10, 1, 0, 0, ""), add(1, 3, 2, 0, 0, ""), add(1, 14, 1, 0, 0, ""), add(1, 3, 3, 0, 0, ""), add(1, 15, 1, 0, 0, ""),
+		wire.R("dispel").I("t", 1).I("status", 1).I("order", 3).I("count", 2), wire.R("dispel").I("t", 1).I("status", 1).I("order", 3).I("count", 1), wire.R("dispel").I("t", 1).I("status", 2).I("order", 3).I("count", 5),
+		wire.R("dispel").I("t", 1).I("status", 1).I("order", 3).I("count", 0), wire.R("dispel").I("t", 1).I("status", 1).I("order", 3).I("count", 1), wire.R("dispel").I("t", 2).I("status", 1).I("order", 3).I("count", 1))
 	mk("d-dispel", add(1, 0, 1, 0, 0, ""), add(1, 3, 1, 0, 0, ""), add(1, 10, 1, 0, 0, ""), add(1, 3, 2, 0, 0, ""), add(1, 14, 1, 0, 0, ""), add(1, 23, 1, 0, 0, ""),
 		wire.R("dispel").I("t", 1).I("status", 1).I("order", 2).I("count", 2), wire.R("dispel").I("t", 1).I("status", 2).I("order", 1).I("count", 1), wire.R("dispel").I("t", 1).I("status", 2).I("order", 2).I("count", 0))
 	mk("d-listeners", cat2(one(add(1, 16, 1, 0, 0, "")), one(add(1, 18, 1, 0, 0, "")), one(add(1, 20, 1, 0, 0, "")), one(add(1, 20, 1, 3, 0, "")), one(add(1, 22, 1, 0, 0, "")), one(add(1, 0, 1, 0, 0, "")), one(add(1, 22, 1, 0, 0, "")),
@@ -500,7 +503,7 @@ func (modComp) Gen(r *rand.Rand, tier string, n int) []*wire.Case {
 			case 10:
 				ops = append(ops, wire.R("extcnt").I("t", t).I("name", name).I("n", pick(r, 1, 2, -1, -2)))
 			case 11:
-				ops = append(ops, wire.R("dispel").I("t", t).I("status", pick(r, 1, 2, 0)).I("order", pick(r, 1, 2)).I("count", pick(r, 0, 1, 2)))
+				ops = append(ops, wire.R("dispel").I("t", t).I("status", pick(r, 1, 2, 0)).I("order", pick(r, 1, 2, 3)).I("count", pick(r, 0, 1, 2)))
 			case 12:
 				for cursor[t] != 0 {
 					ops = append(ops, tick(t, cursor[t]))
